@@ -76,7 +76,8 @@ int __wrap_open(const char *path, int flags, ...) {
 static FILE *fopen_common(const char *path, const char *mode, int is64) {
     if (MON) {
         int w = strpbrk(mode, "wa+") != NULL;
-        int r = strchr(mode, 'r') != NULL || strchr(mode, '+') != NULL;
+        /* "w+" truncates first: nothing that existed before can be read through it */
+        int r = strchr(mode, 'r') != NULL || (strchr(mode, '+') != NULL && mode[0] != 'w');
         if (r) sim_mon_attempt("fs-read", "fopen", path);
         if (w) sim_mon_attempt("fs-write", "fopen", path);
         errno = EACCES;
@@ -210,7 +211,7 @@ int __wrap_inotify_add_watch(int fd, const char *p, uint32_t mask) {
 
 /* environment */
 char *__wrap_getenv(const char *name) {
-    if (MON && janet_vm.core_env != NULL) {
+    if (MON) {
         sim_mon_attempt("env", "getenv", name);
         return NULL;
     }
@@ -254,7 +255,7 @@ int __wrap_getaddrinfo(const char *node, const char *svc, const struct addrinfo 
 /* signals */
 extern int __real_sigaction(int, const struct sigaction *, struct sigaction *);
 int __wrap_sigaction(int sig, const struct sigaction *act, struct sigaction *old) {
-    if (MON && act != NULL && janet_vm.core_env != NULL) {
+    if (MON && act != NULL) {
         sim_mon_attempt("signal", "sigaction", "");
         errno = EACCES;
         return -1;
